@@ -155,7 +155,9 @@ func checkC19(p *Prog, l *Ledger) {
 						l.Violate("C19/S1-status", "main.main#script", firstPos(w), "main itself writes a message although the script argument is valid (stdout must carry only what the program prints): "+word)
 					} else if !calls("main.runFile") || calls("main.runPrompt") || hasOp(w, "exit", nil) {
 						l.Violate("C19/S1-status", "main.main#script", firstPos(w), "one .bn argument must run exactly that file: "+word)
-					} else if !hasOp(w, "call", func(e *Event) bool { return e.Args[0] == "main.runFile" && len(e.Args) > 1 && e.Args[1] == "global:os.Args[1]" }) {
+					} else if !hasOp(w, "call", func(e *Event) bool {
+						return e.Args[0] == "main.runFile" && len(e.Args) > 1 && e.Args[1] == "global:os.Args[1]"
+					}) {
 						l.Violate("C19/S1-status", "main.main#script", firstPos(w), "runFile is not given the script argument: "+word)
 					}
 				default:
@@ -398,10 +400,10 @@ func fnPkgName(fn *ssa.Function) string {
 func checkStreams(p *Prog, l *Ledger) {
 	rule := "C19/S3-streams"
 	allowedStdout := map[string]string{
-		"interpreter.(*Interpreter).eval":    "program output (print clause) and REPL echo",
-		"main.main":                          "usage messages",
-		"main.runPrompt":                     "REPL prompt",
-		"interpreter.NativeInputFn.Call":     "input prompt",
+		"interpreter.(*Interpreter).eval": "program output (print clause) and REPL echo",
+		"main.main":                       "usage messages",
+		"main.runPrompt":                  "REPL prompt",
+		"interpreter.NativeInputFn.Call":  "input prompt",
 	}
 	allowedStderr := map[string]string{
 		"utils.report":       "syntax diagnostics",
